@@ -310,11 +310,21 @@ func checkC12(c C12Case, r *Rec) *Violation {
 		})
 		if len(c.Tree.VarNames()) == 0 && !c.Try && !statefulOp {
 			var streams [3][]string
+			var refused [3]bool
+			firstErr := false
 			for k, ctx := range []*eval.Ctx{{VariableFetcher: &Fetcher{Log: &Log{}}}, nil, {}} {
 				var o Outcome
 				recs := runWithConsumer(eE, 1, capacity, func() { o = Safe(func() (eval.Value, error) { return eE.Eval(ctx) }) })
-				if o.Panic != nil {
-					return Violf("C12: Eval of a variable-free program panics (context %d: 0 with fetcher, 1 nil, 2 empty)\nconfig=%s src=%s\n%v", k, maskName(mask), src, o)
+				if o.Panic != nil && k == 0 {
+					return Violf("C12: Eval of a variable-free program panics\nconfig=%s src=%s\n%v", maskName(mask), src, o)
+				}
+				if k == 0 {
+					firstErr = o.Err != nil
+				}
+				if o.Panic != nil || (o.Err != nil) != firstErr {
+					streams[k] = nil // (evaluating without a context is not documented: refusing it is the engine's right)
+					refused[k] = true
+					continue
 				}
 				for _, rec := range recs {
 					switch d := rec.ev.Data.(type) {
@@ -326,7 +336,7 @@ func checkC12(c C12Case, r *Rec) *Violation {
 				}
 			}
 			for k := 1; k < 3; k++ {
-				if strings.Join(streams[k], "\n") != strings.Join(streams[0], "\n") {
+				if !refused[k] && strings.Join(streams[k], "\n") != strings.Join(streams[0], "\n") {
 					return Violf("C12: the events of a variable-free program depend on the context it is evaluated with (%s)\nconfig=%s events=%d src=%s\nwith a context:\n%s\nwithout:\n%s", []string{"", "nil *Ctx", "empty Ctx"}[k], maskName(mask), c.Events, src, clip(strings.Join(streams[0], "\n"), 1500), clip(strings.Join(streams[k], "\n"), 1500))
 				}
 			}
